@@ -124,13 +124,23 @@ func WithDisabledLocalFiltering(val bool) Option {
 	}
 }
 
+// normalizeFilter lower-cases (IPIP-484 filter values are case-insensitive, and the server lower-cases them)
+// and sorts a copy of the filter values, so that local filtering agrees with the filtering done by the server.
+func normalizeFilter(filter []string) []string {
+	out := make([]string, len(filter))
+	for i, f := range filter {
+		out[i] = strings.ToLower(f)
+	}
+	slices.Sort(out)
+	return out
+}
+
 // WithProtocolFilter adds a protocol filter to the client.
 // The protocol filter is added to the request URL.
 // The protocols are ordered alphabetically for cache key (url) consistency
 func WithProtocolFilter(protocolFilter []string) Option {
 	return func(c *Client) error {
-		slices.Sort(protocolFilter)
-		c.protocolFilter = protocolFilter
+		c.protocolFilter = normalizeFilter(protocolFilter)
 		return nil
 	}
 }
@@ -140,8 +150,7 @@ func WithProtocolFilter(protocolFilter []string) Option {
 // The addresses are ordered alphabetically for cache key (url) consistency
 func WithAddrFilter(addrFilter []string) Option {
 	return func(c *Client) error {
-		slices.Sort(addrFilter)
-		c.addrFilter = addrFilter
+		c.addrFilter = normalizeFilter(addrFilter)
 		return nil
 	}
 }
